@@ -163,6 +163,17 @@ CHECKS = {
         note="jobmap_sge (needs qsub) and worker() are not exercised; success = all commands exit 0 and the return file exists.",
         technique="stateful model-based testing of run histories with scripted per-item faults and externally observed execution counters",
     ),
+    "C19": dict(
+        category="exploration",
+        text="Five generated-input legs on the shipped extension and the Python descriptors (12 kernel names x float widths x five memory layouts x shapes incl. empty vs. a float64 numpy "
+             "reference; rectangular_grid lattice / spacing / containment / centring / count; nearest_atom_index with the cut-off passed, for ensembles and single geometries; prune bounds; "
+             "aso / aeif vs. the van-der-Waals-sphere definition with the float32 rounding band excluded and counted) plus a native leg: molli_xt/distance.cpp of the working tree is "
+             "compiled with clang++ under ASan + UBSan + libFuzzer against a header shim standing in for pybind11, and every registered name is fuzzed with the oracle inside the target.",
+        design_ref="DESIGN.md section 5, C19",
+        note="The shipped .so cannot be rebuilt (pybind11 absent): an edit to the C++ kernels is seen by the native leg only, an edit to pybind11-level dispatch only after a rebuild. "
+             "Known finding: generic names compute non-contiguous float64 input in float32.",
+        technique="differential property testing against numpy float64 + coverage-guided sanitizer fuzzing (libFuzzer) of the C++ kernels with an in-target oracle",
+    ),
     "C02": dict(
         category="exploration",
         text="Bounded-exhaustive (all op sequences up to length 4/5 over a 14-letter alphabet on two raw UKVFile handles) plus random "
